@@ -4,5 +4,6 @@ func init() { register("C12", c12) }
 
 func c12(c *Ctx) {
 	c.eofTermination("R12.3", "rfc5322")
+	c.listWriterDiscipline()
 	c.boundedRecursion("R12.1", []string{"rfc5322", "rfc822", "imap", "rfcparser"}, []string{"rfc5322", "rfc822", "imap"}, 5)
 }
